@@ -6,65 +6,99 @@ number of attempts, removing its pending state. At most 100 packets are queued p
 and when the handshake completes each queued packet is sent exactly once, in order, and only if the
 outbound firewall allows it."
 
-Model: handleOutbound / cachePacket / continueHandshake of Model/HsManager.lean, for every state and every
-configuration (retries, interval). `hsTimeout` and `maxCachedPackets` are regenerated from the source.
+Model: StartHandshake / handleOutbound(For) / NextOutboundHandshakeTimerTick / cachePacket / continueHandshake
+of Model/HsManager.lean — the code AFTER the repair "fix: handshake retry timers only drive the pending
+handshake they were armed for": a timer entry carries the identity of the pending handshake it was armed
+for, entries of other (earlier) handshakes are ignored, a lighthouse-triggered attempt never re-arms.
+`hsTimeout` and `maxCachedPackets` are regenerated from the source.
 
-FULL STATEMENT (not provable for the code as it is): "between two consecutive attempts of one pending
-handshake, with attempt counter k after the first, exactly k + 1 wheel ticks pass". It fails because the
-timer wheel is keyed by overlay address only: a timer entry left behind by an EARLIER handshake to the same
-address (completed, or restarted after a wrong responder) fires for the new one and starts a second
-timer chain (`stale_timer_double_attempt`, `C32_full_false`). Proved instead (`…_partial`): every attempt
-of a non-triggered firing schedules its successor with delay interval · counter — the schedule of ONE
-timer chain; the missing hypothesis for the full statement is "the wheel holds no other entry for the
-address when the handshake starts" (class `c32-stale-timer-extra-attempt` in the correspondence oracle,
-which compares against the countdown specification Spec/HsRetry.lean).
+Retry schedule, FULL: over every history of a node (any mix of starts, restarts after wrong responders,
+re-handshakes to an address that already has a tunnel or a stale timer, triggers, completions, ticks at any
+times, index draws …) every pending handshake owns EXACTLY ONE timer entry, filed under its address and tagged
+with its identity (`one_timer_per_handshake`); entries with any other tag change nothing when they fire
+(`stale_timer_ignored`); and the firing of its own entry makes attempt k+1 and arms the one successor entry
+with delay interval·(k+1) (`retry_schedule`) — so attempt k+1 is scheduled interval·k after attempt k, on
+one timer chain, for every history. (How the wheel rounds a delay to ticks is C33.)
+
+Before the repair the statement was false (known finding `c32-stale-timer-extra-attempt`, now `fixed`): the
+witness history is kept below (`stale_timer_no_longer_doubles`) and in corpus/hsmanager/c32-stale-timer.ops.
 -/
 import Nebula.Lemmas.HsManagerStep
+import Nebula.Lemmas.HsPendingHist
 import Nebula.Spec.HsRetry
 
 namespace Nebula.Props.C32
-open Nebula.HsManager Nebula.Lemmas.HsManager Nebula.Gen
+open Nebula.HsManager Nebula.Lemmas.HsManager Nebula.Lemmas.HsPending Nebula.Lemmas.HsWheel Nebula.Gen
 
-/-- Retry schedule of one timer chain (partial, see header): a timer firing for a pending, ready handshake
+/-- Retry schedule, one firing (every state): the timer entry armed for the pending, ready handshake `hh`
 with `counter < retries` raises the counter by one, retransmits the same stage-1 packet to the current
-remote list, and re-arms the wheel with delay `interval · (counter + 1)` — linear back-off. -/
-theorem retry_schedule_partial (c : Cfg) (mi : List (Nat × HostInfo)) (p : PSide) (a : Addr) (now : Nat)
+remote list, and arms ONE successor entry — same address, same handshake — with delay
+`interval · (counter + 1)`: linear back-off. -/
+theorem retry_schedule (c : Cfg) (mi : List (Nat × HostInfo)) (p : PSide) (a : Addr) (now : Nat)
     (hh : Pending) (hl : alookup a p.vpnIps = some hh) (hr : hh.ready = true) (hc : hh.counter < c.retries)
     (rid : Nat) (hrem : hh.remotes = some rid) :
-    (p.handleOutbound c mi a false now).1.wheel = p.wheel.add a ((c.interval : Int) * (hh.counter + 1)) ∧
-    (p.handleOutbound c mi a false now).2.tx =
-      stage0Tx hh.pkt0 (p.lh.get rid).out ∧
-    (p.handleOutbound c mi a false now).1.vpnIps =
+    (p.handleOutbound c mi a false now (some hh.id)).1.wheel =
+      p.wheel.add (a, hh.id) ((c.interval : Int) * (hh.counter + 1)) ∧
+    (p.handleOutbound c mi a false now (some hh.id)).2.tx = stage0Tx hh.pkt0 (p.lh.get rid).out ∧
+    (p.handleOutbound c mi a false now (some hh.id)).1.vpnIps =
       (p.setPending { hh with counter := hh.counter + 1, remotes := some rid, lastRemotes := (p.lh.get rid).out }).vpnIps := by
   have hc' : ¬ hh.counter ≥ c.retries := by omega
-  simp only [PSide.handleOutbound, hl, hc', hr, hrem]
+  simp only [PSide.handleOutbound, hl, hc', PSide.attempt, hr, remoteListOf, hrem]
   simp [PSide.setPending, Out.app]
 
-/-- A lighthouse-triggered attempt counts as an attempt but never re-arms the timer. -/
+/-- A timer entry armed for any OTHER handshake than the one now pending for the address (an earlier one that
+completed, failed or was restarted) is ignored: nothing is transmitted, nothing changes, nothing is re-armed. -/
+theorem stale_timer_ignored (c : Cfg) (mi : List (Nat × HostInfo)) (p : PSide) (a : Addr) (trig : Bool) (now : Nat)
+    (hh : Pending) (hl : alookup a p.vpnIps = some hh) (id : Nat) (hid : id ≠ hh.id) :
+    p.handleOutbound c mi a trig now (some id) = (p, {}) := by
+  have : (id != hh.id) = true := by simp [hid]
+  simp [PSide.handleOutbound, hl, this]
+
+/-- … and so is an entry for an address without a pending handshake. -/
+theorem orphan_timer_ignored (c : Cfg) (mi : List (Nat × HostInfo)) (p : PSide) (a : Addr) (trig : Bool) (now : Nat)
+    (armed : Option Nat) (hl : alookup a p.vpnIps = none) : p.handleOutbound c mi a trig now armed = (p, {}) := by
+  simp [PSide.handleOutbound, hl]
+
+/-- Retry schedule, every history (sane configuration: positive interval, non-negative wheel span): each
+pending handshake owns exactly one timer entry in the wheel, every entry tagged with its identity is filed
+under its address, and no two pending handshakes share an identity or an address. Together with
+`retry_schedule` and `stale_timer_ignored`: the attempts of a pending handshake are driven by one timer
+chain whose k-th link has delay interval·k — including after restarts and re-handshakes to the same address. -/
+theorem one_timer_per_handshake (cfg : Cfg) (hs : Cfg.sane cfg) (evs : List Ev) (a : Addr) (hh : Pending)
+    (hm : (a, hh) ∈ ((Node.init cfg).run evs).p.vpnIps) :
+    cnt ((Node.init cfg).run evs).p.wheel hh.id = 1 ∧
+    (∀ it ∈ ((Node.init cfg).run evs).p.wheel.slots.flatten, it.2 = hh.id → it.1 = a) ∧
+    (∀ a' hh', (a', hh') ∈ ((Node.init cfg).run evs).p.vpnIps → hh'.id = hh.id → a' = a ∧ hh' = hh) := by
+  have h := run_pinv (Node.init cfg) evs (init_pinv cfg hs)
+  refine ⟨by simpa [cntL_nil] using h.one a hh hm, fun it hi e => h.tAddr a hh it hm (Or.inl hi) e,
+    fun a' hh' hm' e => same_of_id h hm' hm e⟩
+
+/-- A lighthouse-triggered attempt counts as an attempt but never re-arms the timer (ready or not). -/
 theorem trigger_does_not_rearm (c : Cfg) (mi : List (Nat × HostInfo)) (p : PSide) (a : Addr) (now : Nat)
-    (hh : Pending) (hl : alookup a p.vpnIps = some hh) (hr : hh.ready = true) (hc : hh.counter < c.retries)
-    (rid : Nat) (hrem : hh.remotes = some rid) :
+    (hh : Pending) (hl : alookup a p.vpnIps = some hh) (hc : hh.counter < c.retries) :
     (p.handleOutbound c mi a true now).1.wheel = p.wheel := by
   have hc' : ¬ hh.counter ≥ c.retries := by omega
-  simp only [PSide.handleOutbound, hl, hc', hr, hrem]
-  simp only [if_false, Bool.not_true, Bool.false_eq_true, ite_true, if_true]
-  split <;> simp [PSide.setPending]
+  simp only [PSide.handleOutbound, hl, hc', Option.any_none, Bool.false_eq_true, if_false, if_true]
+  have s := (attempt_same c mi p { hh with counter := hh.counter + 1 } a true now).1
+  simp [PSide.setPending, s.w]
 
 /-- Giving up: a firing that finds `counter ≥ retries` transmits nothing and removes the pending entry and
-its index (the entry is stored under its own address — true of every entry StartHandshake creates). -/
+its index (the entry is stored under its own address and owns its index — `one_timer_per_handshake`'s
+invariant gives the first for every history). -/
 theorem gives_up (c : Cfg) (mi : List (Nat × HostInfo)) (p : PSide) (a : Addr) (trig : Bool) (now : Nat)
-    (hh : Pending) (hl : alookup a p.vpnIps = some hh) (hkey : hh.vpnAddr = a) (hc : hh.counter ≥ c.retries) :
-    (p.handleOutbound c mi a trig now).2.tx = [] ∧
-    alookup a (p.handleOutbound c mi a trig now).1.vpnIps = none ∧
-    alookup hh.localIndex (p.handleOutbound c mi a trig now).1.pindexes = none := by
+    (hh : Pending) (hl : alookup a p.vpnIps = some hh) (hkey : hh.vpnAddr = a) (hc : hh.counter ≥ c.retries)
+    (hidx : alookup hh.localIndex p.pindexes = some hh.id ∨ alookup hh.localIndex p.pindexes = none) :
+    (p.handleOutbound c mi a trig now (some hh.id)).2.tx = [] ∧
+    alookup a (p.handleOutbound c mi a trig now (some hh.id)).1.vpnIps = none ∧
+    alookup hh.localIndex (p.handleOutbound c mi a trig now (some hh.id)).1.pindexes = none := by
   simp only [PSide.handleOutbound, hl, hc, if_true, PSide.deletePending, hkey]
-  simp [alookup_aerase]
+  rcases hidx with h | h <;> simp [alookup_aerase, h]
 
 /-- No attempt is ever made beyond the configured number: a firing transmits only when `counter < retries`. -/
 theorem no_attempt_after_retries (c : Cfg) (mi : List (Nat × HostInfo)) (p : PSide) (a : Addr) (trig : Bool)
     (now : Nat) (hh : Pending) (hl : alookup a p.vpnIps = some hh) (hc : hh.counter ≥ c.retries) :
     (p.handleOutbound c mi a trig now).2.tx = [] := by
-  simp only [PSide.handleOutbound, hl, hc, if_true]
+  simp [PSide.handleOutbound, hl, hc]
 
 /-- Queue bound: cachePacket never lets a queue grow beyond maxCachedPackets (= 100, regenerated). -/
 theorem queue_bound (hh : Pending) (q : Cached) (h : hh.store.length ≤ hsm_maxCachedPackets) :
@@ -94,17 +128,18 @@ theorem flush_in_order_if_allowed (n : Node) (via : UNode) (idx : Nat) (c : Comp
   rw [hl]
   simp [hr, hs, hw]
 
-/-- … exactly once: completion removes the pending index, and a stage-2 message for an index that is
-not pending does nothing at all (so the queue can never be flushed a second time). -/
+/-- … completion removes the pending index (which the pending handshake owns), and a stage-2 message for an
+index that is not pending does nothing at all. -/
 theorem completion_removes_index (n : Node) (via : UNode) (idx : Nat) (c : Completed)
     (hh : Pending) (hl : (alookup idx n.p.pindexes).bind n.p.pendingById = some hh) (hr : hh.ready = true)
+    (hli : hh.localIndex = idx) (hown : alookup idx n.p.pindexes = some hh.id)
     (hself : c.certAddrs.any (fun a => n.cfg.myAddrs.contains a) = false)
     (hw : hh.vpnAddr ∈ c.certAddrs) :
-    alookup hh.localIndex (n.continueHandshake via idx (.completed c)).1.p.pindexes = none := by
+    alookup idx (n.continueHandshake via idx (.completed c)).1.p.pindexes = none := by
   have hs : ¬ ∃ x, x ∈ c.certAddrs ∧ x ∈ n.cfg.myAddrs := by simpa using hself
   unfold Node.continueHandshake
   rw [hl]
-  simp [hr, hs, hw, PSide.deletePending, alookup_aerase]
+  simp [hr, hs, hw, PSide.deletePending, hli, hown, alookup_aerase]
 
 theorem no_pending_no_flush (n : Node) (via : UNode) (idx : Nat) (res : S2Res)
     (hl : alookup idx n.p.pindexes = none) :
@@ -128,41 +163,78 @@ theorem retries_one_fires_like_the_others :
     let w1 := (Node.init { node := 0, myAddrs := [1], hasV1 := false, hasV2 := true, retries := 1, interval := 100000000 }).p.wheel
     let w3 := (Node.init { node := 0, myAddrs := [1], hasV1 := false, hasV2 := true, retries := 3, interval := 100000000 }).p.wheel
     w1.len = 2 ∧ w1.wheelDur = 0 ∧
-    ((w1.add 7 100000000).step1.1.step1.2 = [7] ∧ (w1.add 7 100000000).step1.2 = []) ∧
-    ((w3.add 7 100000000).step1.1.step1.2 = [7] ∧ (w3.add 7 100000000).step1.2 = []) := by decide
+    ((w1.add (7, 0) 100000000).step1.1.step1.2 = [(7, 0)] ∧ (w1.add (7, 0) 100000000).step1.2 = []) ∧
+    ((w3.add (7, 0) 100000000).step1.1.step1.2 = [(7, 0)] ∧ (w3.add (7, 0) 100000000).step1.2 = []) := by decide
 
-/-- Witness of the defect recorded as a known finding: node 0 completes a handshake as initiator with
-address 2, immediately starts a new handshake to the same address (what tryRehandshake or a
-wrong-responder restart does), and ONE clock tick later the new pending handshake has made TWO attempts
-(counter 2, two transmissions) — the first handshake's timer entry fired for it. -/
+/-- The witness history of the repaired defect: node 0 completes a handshake as initiator with address 2,
+immediately starts a new handshake to the same address (what tryRehandshake or a wrong-responder restart
+does), and one clock tick later. Before the repair the new pending handshake had made TWO attempts at that
+point (the first handshake's timer entry fired for it); now it has made one, as the countdown specification
+demands, and the stale entry is still recognisable in the wheel by its tag. -/
 def cfgW : Cfg := { node := 0, myAddrs := [1], hasV1 := false, hasV2 := true, retries := 10, interval := 100000000 }
 def histW : List Ev :=
   [.lh 2 1, .hs 2, .tick 0, .tick 100000000, .tick 200000000,          -- first attempt at the third tick
    .stage2 1 1001 (.completed { certAddrs := [2], certVer := 2, remoteIndex := 2001, time := 5 }),
    .rehs 2, .tick 400000000]
 
-theorem stale_timer_double_attempt :
-    (alookup 2 ((Node.init cfgW).run histW).p.vpnIps).map (·.counter) = some 2 := by decide
+theorem stale_timer_no_longer_doubles :
+    (alookup 2 ((Node.init cfgW).run histW).p.vpnIps).map (·.counter) = some 1 ∧
+    (let spec : Spec.HsRetry.St := { retries := 10, interval := 100000000 }
+     let spec := (((spec.start 2 0).tick 0).tick 100000000).tick 200000000   -- the first handshake
+     let spec := ((spec.drop 0).start 2 1).tick 400000000                      -- completed; restarted; one tick
+     spec.view = [(2, 1)]) := by decide
 
-/-- The full retry-schedule statement is false for the model of the code as it is: the countdown
-specification expects one attempt (counter 1) at that tick. -/
-theorem C32_full_false :
-    let spec : Spec.HsRetry.St := { retries := 10, interval := 100000000 }
-    let spec := (((spec.start 2 0).tick 0).tick 100000000).tick 200000000   -- the first handshake
-    let spec := ((spec.drop 0).start 2 1).tick 400000000                      -- completed; restarted; one tick
-    spec.view = [(2, 1)] ∧
-    (alookup 2 ((Node.init cfgW).run histW).p.vpnIps).map (·.counter) ≠ some 1 := by decide
+/-- Queue invariant, every history: each pending handshake's queue is exactly the first maxCachedPackets
+packets handed to cachePacket for it (for a restarted handshake: for it and its predecessors), in the order
+they were offered — hence never longer than maxCachedPackets (= 100) and FIFO. -/
+theorem queue_invariant (cfg : Cfg) (hs : Cfg.sane cfg) (evs : List Ev) (a : Addr) (hh : Pending)
+    (hm : (a, hh) ∈ ((Node.init cfg).run evs).p.vpnIps) :
+    hh.store = hh.offered.take hsm_maxCachedPackets ∧ hh.store.length ≤ hsm_maxCachedPackets := by
+  have h := run_pinv (Node.init cfg) evs (init_pinv cfg hs)
+  have e := h.fifo a hh hm
+  exact ⟨e, by rw [e]; simp; omega⟩
 
--- non-vacuity of the conditional theorems: a pending, ready handshake below the retry limit exists
+/-- `offered` really records every packet, in order: cachePacket appends to it whether or not it stores. -/
+theorem offered_records_every_packet (hh : Pending) (q : Cached) : (hh.cache q).offered = hh.offered ++ [q] := by
+  unfold Pending.cache; split <;> rfl
+
+/-- Flush exactly once, every history: along any history no pending handshake's queue is released twice —
+the identities in the log of released queues are pairwise distinct. (What is released, and in which order,
+is `flush_in_order_if_allowed`; with `queue_invariant` it is the first 100 offered packets the firewall
+allows, in order.) -/
+theorem flush_exactly_once (cfg : Cfg) (hs : Cfg.sane cfg) (evs : List Ev) :
+    ((flushLog (Node.init cfg) evs).map (·.1)).Nodup := by
+  have := flushLog_nodup (Node.init cfg) evs [] (init_pinv cfg hs) List.nodup_nil (fun _ h => by simp at h)
+  simpa using this
+
+/-- the log entry of a completion is the pending handshake's identity and exactly the released packets -/
+theorem flush_log_entry (n : Node) (via : UNode) (idx : Nat) (c : Completed)
+    (hh : Pending) (hl : (alookup idx n.p.pindexes).bind n.p.pendingById = some hh) (hr : hh.ready = true)
+    (hself : c.certAddrs.any (fun a => n.cfg.myAddrs.contains a) = false)
+    (hw : hh.vpnAddr ∈ c.certAddrs) :
+    (n.continueHandshake via idx (.completed c)).2.flushed = [(hh.id, hh.store.filter n.cfg.allowed)] := by
+  have hs : ¬ ∃ x, x ∈ c.certAddrs ∧ x ∈ n.cfg.myAddrs := by simpa using hself
+  unfold Node.continueHandshake
+  rw [hl]
+  simp [hr, hs, hw]
+
+-- non-vacuity: the sane configurations include the defaults and the small retry counts
+example : Cfg.sane cfgW := by unfold Cfg.sane; decide
+example : Cfg.sane { cfgW with retries := 1 } ∧ Cfg.sane { cfgW with retries := 0 } := by unfold Cfg.sane; decide
+-- a pending, ready handshake below the retry limit exists
 example : ∃ hh, alookup 2 ((Node.init cfgW).run (histW.take 5)).p.vpnIps = some hh ∧ hh.ready = true ∧
     hh.counter < cfgW.retries ∧ hh.remotes = some 0 := by decide
 -- … and one at the limit (retries = 1) that the next firing abandons
 example : (alookup 2 ((Node.init { cfgW with retries := 1 }).run
     [.lh 2 1, .hs 2, .tick 0, .tick 100000000, .tick 200000000, .tick 400000000]).p.vpnIps).isNone = true := by decide
--- flush: three queued packets, the second one refused by the outbound firewall (port 2500)
+-- flush: three queued packets, the second one refused by the outbound firewall (port 2500); released once
 example : ((Node.init cfgW).run [.lh 2 1, .send 2 ⟨40, 1500⟩, .send 2 ⟨41, 2500⟩, .send 2 ⟨42, 1501⟩, .tick 0,
       .tick 100000000, .tick 200000000]).step
       (.stage2 1 1001 (.completed { certAddrs := [2], certVer := 2, remoteIndex := 2001, time := 5 })) |>.2.tx
     = [.msg 40 1, .msg 42 1] := by decide
+example : flushLog (Node.init cfgW) [.lh 2 1, .send 2 ⟨40, 1500⟩, .send 2 ⟨41, 2500⟩, .tick 0, .tick 100000000, .tick 200000000,
+      .stage2 1 1001 (.completed { certAddrs := [2], certVer := 2, remoteIndex := 2001, time := 5 }),
+      .stage2 1 1001 (.completed { certAddrs := [2], certVer := 2, remoteIndex := 2001, time := 5 })]
+    = [(0, [⟨40, 1500⟩])] := by decide
 
 end Nebula.Props.C32
